@@ -197,8 +197,10 @@ def min_cost_flow(G: nx.DiGraph, s, t, demands_attr = 'l', capacities_attr = 'u'
 
     flowNetwork = nx.DiGraph()
 
-    flowNetwork.add_node(s, demand=-bigNumber)
-    flowNetwork.add_node(t, demand=bigNumber)
+    # the supply sent from s to t must be able to satisfy all the demands (the excess uses the edge (s, t))
+    supply = max(bigNumber, sum(G[x][y][demands_attr] for x, y in G.edges()))
+    flowNetwork.add_node(s, demand=-supply)
+    flowNetwork.add_node(t, demand=supply)
 
     for v in G.nodes():
         if v != s and v != t:
